@@ -137,7 +137,17 @@ def run_case_guarded(mod, case, env):
         if handler is not None:
             return handler(case, env, rc)
         if rc.kind == "timeout":
-            return Result(inconclusive=True, labels=["timeout"])
+            if getattr(mod, "HANG_IS_VIOLATION", False):
+                # the property's model says every generated case terminates: a second timeout in a fresh runner is a hang
+                # (the driver re-executes the shrunk case 3x in fresh runners before it is reported)
+                try:
+                    return mod.check(case, env)
+                except RunnerCrash as rc2:
+                    if rc2.kind == "timeout":
+                        return Result(nontrivial=True, labels=["hang"], violation=viol("hang|no-reply", "no reply within the command timeout, twice, for a case the model says terminates\ncase: %s" % json.dumps(case)[:1500]))
+                    rc = rc2
+            else:
+                return Result(inconclusive=True, labels=["timeout"])
         sig = "crash|" + sanitizer_signature(rc.detail)
         return Result(nontrivial=True, labels=["crash"], violation=viol(sig, rc.detail[-1500:]))
 
